@@ -343,5 +343,55 @@ func main() {
 				}
 			}
 		}})
+	suffixes := []string{"zz", "00zz", "0000\n", " ", "g", "\r\n", "00 ", "0x", "aaaaaaaazz"}
+	ck.Domains = append(ck.Domains, &drv.Domain{Name: "non-hex-long", Size: int64(len(suffixes)) * 7 * 2 * 2, Chunk: 7, Desc: "well-formed full-length hex followed by a non-hex tail (zz, 00zz, newline, space, CRLF ...), once and doubled, with and without 0x, as signature / pk / address of every wrapper: false or \"\", never a failure",
+		Run: func(c *drv.Ctx, lo, hi int64) {
+			ks, xs := getD(c.Seed), getX(c.Seed)
+			goodSig, goodPK := hex.EncodeToString(ks[0].sig[0][:]), hex.EncodeToString(ks[0].pk[:])
+			xSig, xPK := hex.EncodeToString(xs[0].sig), hex.EncodeToString(xs[0].pk[:])
+			dAddr := dilithium.GetDilithiumAddressFromPK(ks[0].pk)
+			xAddr := xmss.GetXMSSAddressFromPK(xs[0].pk)
+			for i := lo; i < hi; i++ {
+				c.At(i)
+				w := int(i % 7)
+				suf := suffixes[i/7%int64(len(suffixes))]
+				doubled, prefixed := i/7/int64(len(suffixes))%2 == 1, i/7/int64(len(suffixes))/2 == 1
+				mk := func(good string) string {
+					s := good + suf
+					if doubled {
+						s = good + good + suf
+					}
+					if prefixed {
+						s = "0x" + s
+					}
+					return s
+				}
+				var got, want string
+				switch w {
+				case 0:
+					got, want = outcomeBool(func() bool { return dilithiumjs.DilithiumVerify(ks[0].msg[0], mk(goodSig), goodPK) }), "false"
+				case 1:
+					got, want = outcomeBool(func() bool { return dilithiumjs.DilithiumVerify(ks[0].msg[0], goodSig, mk(goodPK)) }), "false"
+				case 2:
+					got, want = outcomeStr(func() string { return dilithiumjs.GetDilithiumAddressFromPK(mk(goodPK)) }), "value:"
+				case 3:
+					got, want = outcomeBool(func() bool { return dilithiumjs.IsValidDilithiumAddress(mk(hex.EncodeToString(dAddr[:]))) }), "false"
+				case 4:
+					got, want = outcomeBool(func() bool {
+						return xmssjs.XMSSVerify(string(xs[0].msg), mk(xSig), xPK) || xmssjs.XMSSVerify(string(xs[0].msg), xSig, mk(xPK))
+					}), "false"
+				case 5:
+					got, want = outcomeStr(func() string { return xmssjs.GetXMSSAddressFromPK(mk(xPK)) }), "value:"
+				case 6:
+					got, want = outcomeBool(func() bool { return xmssjs.IsValidXMSSAddress(mk(hex.EncodeToString(xAddr[:]))) }), "false"
+				}
+				c.Eval(1)
+				c.Nontrivial(1)
+				c.Outcome(got)
+				if got != want {
+					c.Fail(i, fmt.Sprintf("non-hex-long wrapper#%d", w), map[string]any{"tail": fmt.Sprintf("%q", suf), "doubled": doubled, "prefixed": prefixed, "expected": want, "observed": got})
+				}
+			}
+		}})
 	drv.Main(ck)
 }
